@@ -48,6 +48,9 @@ def parse_abs(u):
 # ---- statements -> CSS text ---------------------------------------------------------------------------------------------------
 def decls(urls, quote):
     out = []
+    if quote % 3 == 1 and len(urls) >= 2:
+        # every url() of the block as an argument of a function: a url() value all the same
+        return "background-image: image-set(%s)" % ", ".join('url("%s") %dx' % (ref_text(r), i + 1) for i, r in enumerate(urls))
     for i, r in enumerate(urls):
         u = ref_text(r)
         form = ['url(%s)', 'url("%s")', "url('%s')"][(i + quote) % 3]
@@ -88,8 +91,20 @@ def file_text(stmts, v, charset=None):
 
 
 # ---- DOM -> statements --------------------------------------------------------------------------------------------------------
+def value_urls(val):
+    """the url() values in a value component: itself, or the ones among the arguments of a function (own walk of the public item
+    sequence - not cssutils.getUrls, which is under test)"""
+    if val.type == "URI":
+        return [val]
+    out = []
+    for it in getattr(val, "seq", []):
+        if hasattr(it.value, "type") and hasattr(it.value, "cssText") and it.value is not val:
+            out += value_urls(it.value)
+    return out
+
+
 def style_urls(style):
-    return [parse_ref(val.uri) for p in style.getProperties(all=True) for val in p.propertyValue if val.type == "URI"]
+    return [parse_ref(u.uri) for p in style.getProperties(all=True) for val in p.propertyValue for u in value_urls(val)]
 
 
 def project_rules(rules):
@@ -279,6 +294,8 @@ def run_combine(item):
     r = dict(item)
     rid = r.pop("id")
     world = r["world"]
+    if any(fl["loc"]["path"] and fl["loc"]["path"][-1] == "" for fl in world["files"].values()):
+        return {"id": rid, "skip": True}          # a directory URL is not a file csscombine could read
     v = rid % 6
     minify = bool(rid % 2)
     enc = [None, "utf-8", "ascii", "iso-8859-1"][(rid // 2) % 4]
